@@ -823,6 +823,17 @@ CLAIMS["C04"]["note"] += (
     "position (top, tuple component, constructor argument, struct field, nested) x form (match with catch-all, only arm, let), cut to about 5.6k texts in "
     "the quick tier, each through parse, compile, check_package, build_package, link_cores and the three queries; gen-ill's wrongly typed hole now also "
     "takes any other primitive type (float for int, int64 for int32, ...).")
+CLAIMS["C12"]["note"] += (
+    " Round 11 third pass — grammar_terminates is PROVED (Props/C04; abstract interpreter over the statement language, potential "
+    "(len-pos)*257+fuel, ranks <= 6, per-function check decided for all 130 reachable function instances), hence parse_lossless, "
+    "grammar_events_cover_tokens, parse_events_cover_tokens, file_consumes_all_tokens hold for EVERY text / token list without any "
+    "hypothesis (the _partial versions are replaced). Remaining validated-only part for the parser: that Model/Grammar.lean is the Rust "
+    "(exact equality of event lists on every tie input).")
+CLAIMS["C04"]["note"] += (
+    " Third pass: grammar_progress and grammar_terminates (the fuel-bounded grammar model never runs out of budget = 40*257*(len+1)+41; "
+    "every loop iteration and call cycle advances, spends parser fuel or stops) are proved for the whole grammar, replacing the "
+    "'searched, not proved' argument for match_arm_list and all list loops; file_consumes_all_tokens is unconditional.")
+
 
 def main():
     checks = []
